@@ -125,6 +125,12 @@ def arg_reduction(x, chunk, combine, agg, axis=None, keepdims=False, split_every
                 "  x.compute_chunk_sizes()"
             )
 
+    # The reduction tree below is sized for the number of blocks ``x``
+    # advertises now.  If optimization later re-blocked ``x`` into more blocks
+    # the tree would be too shallow and its last level would keep one group's
+    # answer, so pin the layout.
+    x = x.freeze_chunks()
+
     # Create the ArgChunk expression for the initial chunk step
     tmp = ArgChunk(x.expr, chunk, axis, ravel)
 
